@@ -629,6 +629,9 @@ func main() {
 		{"kinesisAdd", []string{"KinesisAdd.lean"}, genKinesisAdd},
 		{"otherAdds", []string{"OtherAdds.lean"}, genOtherAdds},
 		{"ledgerSrc", []string{"LedgerSrc.lean"}, genLedgerSrc},
+		{"emitSrc", []string{"EmitSrc.lean"}, genEmitSrc},
+		{"progressSrc", []string{"ProgressSrc.lean"}, genProgressSrc},
+		{"switches", []string{"Switches.lean"}, genSwitches},
 	}
 	status := map[string]interface{}{}
 	failed := 0
